@@ -30,6 +30,8 @@ class FloatLike (α : Type) where
   log    : α → α
   /-- `x ** y` for float `y` -/
   rpow   : α → α → α
+  /-- `x ** n` for a Python `int` n, as the platform computes it (C `pow(x, (double)n)`) -/
+  powInt : α → Int → α
   isZero : α → Bool
   lt     : α → α → Bool
   beq    : α → α → Bool
@@ -122,8 +124,8 @@ def neg : Mag α → Mag α
 def powInt (a : Mag α) (n : Int) : Except Exc (Mag α) :=
   if n < 0 && a.isZero then .error .zeroDivision else
   match a with
-  | .int i => if n ≥ 0 then .ok (.int (i ^ n.toNat)) else .ok (.flt (ipow (FloatLike.ofInt i : α) n))
-  | .flt x => .ok (.flt (ipow x n))
+  | .int i => if n ≥ 0 then .ok (.int (i ^ n.toNat)) else .ok (.flt (FloatLike.powInt (FloatLike.ofInt i : α) n))
+  | .flt x => .ok (.flt (FloatLike.powInt x n))
   | .dec r => .ok (.dec (ipow r n))
 
 def lt (a b : Mag α) : Bool :=
